@@ -58,24 +58,24 @@ Qed.
 
 (** ** label environments: for every open frame, the target all its [br] jumps will have in the
     final code; the second component excludes the [if]'s own jump (which lies before it) *)
-Definition lenv1 (j : jump_target) (e : Z * Z) : Prop :=
-  (exists locs, j = JUnknown locs None /\ forall loc, In loc locs -> snd e <= loc -> get_u32 c loc = fst e)
-  \/ j = JKnown (fst e).
-Definition lenv (s : cstate) (rho : list (Z * Z)) : Prop := Forall2 lenv1 (c_bp s) rho.
-Definition lows (rho : list (Z * Z)) (s : cstate) : Prop :=
-  Forall (fun e => snd e <= cur_off s /\ 0 <= fst e < 4294967296) rho.
+Definition lenv1 (j : jump_target) (e : Z * Z * option provider) : Prop :=
+  (exists locs, j = JUnknown locs (snd e) /\ forall loc, In loc locs -> snd (fst e) <= loc -> get_u32 c loc = fst (fst e))
+  \/ (j = JKnown (fst (fst e)) /\ snd e = None).
+Definition lenv (s : cstate) (rho : list (Z * Z * option provider)) : Prop := Forall2 lenv1 (c_bp s) rho.
+Definition lows (rho : list (Z * Z * option provider)) (s : cstate) : Prop :=
+  Forall (fun e => snd (fst e) <= cur_off s /\ 0 <= fst (fst e) < 4294967296) rho.
 
 Lemma lenv_sub bp s s' rho : c_bp s = bp -> bp_sub bp (c_bp s') -> lenv s' rho -> lenv s rho.
 Proof.
   unfold lenv. intros -> H. revert rho. induction H as [|j j' b b' Hj]; intros rho H2;
     inversion H2 as [|? e ? rho' He]; subst; constructor; auto.
-  destruct Hj as [(locs & add & -> & ->)|(pos & -> & ->)]; [|exact He].
-  destruct He as [(l2 & E & Hl)|E]; [|discriminate E].
+  destruct Hj as [(locs & add & res & -> & ->)|(pos & -> & ->)]; [|exact He].
+  destruct He as [(l2 & E & Hl)|[E _]]; [|discriminate E].
   inversion E; subst. left. exists locs. split; [reflexivity|]. intros loc Hin Hlo. apply Hl; auto. apply in_or_app; auto.
 Qed.
 Lemma lows_mono rho s s' : lows rho s -> cur_off s <= cur_off s' -> lows rho s'.
 Proof. unfold lows. intros H Hle. eapply Forall_impl; [|exact H]. cbn. intros; lia. Qed.
-Lemma lows_nth rho s k e : lows rho s -> nth_error rho k = Some e -> snd e <= cur_off s /\ 0 <= fst e < 4294967296.
+Lemma lows_nth rho s k e : lows rho s -> nth_error rho k = Some e -> snd (fst e) <= cur_off s /\ 0 <= fst (fst e) < 4294967296.
 Proof. unfold lows. intros H E. rewrite Forall_forall in H. apply H. eapply nth_error_In; eauto. Qed.
 
 Definition at_pc (pc : Z) : cstate :=
@@ -83,11 +83,23 @@ Definition at_pc (pc : Z) : cstate :=
 Lemma cur_off_at_pc pc : 0 <= pc -> cur_off (at_pc pc) = pc.
 Proof. intros H. unfold cur_off, at_pc. cbn. rewrite repeat_length. lia. Qed.
 
-Definition sim_res (rho : list (Z * Z)) (M : mstate) (s1 : cstate) (r : res) : Prop :=
+(** arrival at a label: nothing on the operand stack for a result-less label, the branch value in the
+    reserved register otherwise *)
+Definition at_pcv (pc : Z) (r : provider) : cstate :=
+  {| c_out := repeat 0%N (Z.to_nat pc); c_bp := []; c_stack := [r]; c_next := 0; c_reuse := []; c_consts := []; c_last := None |}.
+Lemma cur_off_at_pcv pc r : 0 <= pc -> cur_off (at_pcv pc r) = pc.
+Proof. intros H. unfold cur_off, at_pcv. cbn. rewrite repeat_length. lia. Qed.
+Definition arrive (e : Z * Z * option provider) (st : store) (l vs : list val) (M : mstate) : Prop :=
+  match snd e with
+  | None => rel (at_pc (fst (fst e))) st l [] M
+  | Some r => exists v vs0, vs = v :: vs0 /\ rel (at_pcv (fst (fst e)) r) st l [v] M
+  end.
+
+Definition sim_res (rho : list (Z * Z * option provider)) (M : mstate) (s1 : cstate) (r : res) : Prop :=
   match r with
   | RNormal st' l' vs' => exists n M', nsteps n M = SNext M' /\ rel s1 st' l' vs' M' /\ frame_eq M M'
-  | RBr k st' l' _ => exists e n M', nth_error rho k = Some e /\ 0 <= fst e /\ nsteps n M = SNext M'
-                                     /\ rel (at_pc (fst e)) st' l' [] M' /\ frame_eq M M'
+  | RBr k st' l' vs' => exists e n M', nth_error rho k = Some e /\ 0 <= fst (fst e) /\ nsteps n M = SNext M'
+                                     /\ arrive e st' l' vs' M' /\ frame_eq M M'
   | RTrap => exists n e, nsteps n M = STrap e
   | RReturn st' _ => exists n M', nsteps n M = SNext M' /\ frame_eq M M' /\ ms_idx M' = fidx
                                 /\ code_at c (ms_pc M') [IReturn]
@@ -218,20 +230,20 @@ Qed.
 Lemma nth_error_update_nth {A} : forall (bp : list A) k j x, nth_error bp k = Some j -> nth_error (update_nth bp k x) k = Some x.
 Proof. induction bp as [|y r IH]; intros [|k] j x H; cbn in *; try discriminate; eauto. Qed.
 
-Lemma lenv_nth s rho k locs : lenv s rho -> nth_error (c_bp s) k = Some (JUnknown locs None) ->
-  exists e, nth_error rho k = Some e /\ forall loc, In loc locs -> snd e <= loc -> get_u32 c loc = fst e.
+Lemma lenv_nth s rho k locs res : lenv s rho -> nth_error (c_bp s) k = Some (JUnknown locs res) ->
+  exists e, nth_error rho k = Some e /\ snd e = res /\ forall loc, In loc locs -> snd (fst e) <= loc -> get_u32 c loc = fst (fst e).
 Proof.
   unfold lenv. intros H. revert k. induction H as [|j e b r He]; intros [|k] E; cbn in E; try discriminate.
-  - inversion E; subst. destruct He as [(l0 & E0 & Hl)|E0]; [|discriminate E0]. inversion E0; subst.
-    exists e. split; [reflexivity|exact Hl].
+  - inversion E; subst. destruct He as [(l0 & E0 & Hl)|[E0 _]]; [|discriminate E0]. inversion E0; subst.
+    exists e. split; [reflexivity|split; [reflexivity|exact Hl]].
   - apply IHForall2. exact E.
 Qed.
 Lemma lenv_nth_known s rho k pos : lenv s rho -> nth_error (c_bp s) k = Some (JKnown pos) ->
-  exists e, nth_error rho k = Some e /\ fst e = pos.
+  exists e, nth_error rho k = Some e /\ fst (fst e) = pos /\ snd e = None.
 Proof.
   unfold lenv. intros H. revert k. induction H as [|j e b r He]; intros [|k] E; cbn in E; try discriminate.
-  - inversion E; subst. destruct He as [(l0 & E0 & Hl)|E0]; [discriminate E0|]. inversion E0; subst.
-    exists e. split; reflexivity.
+  - inversion E; subst. destruct He as [(l0 & E0 & Hl)|[E0 En]]; [discriminate E0|]. inversion E0; subst.
+    exists e. auto.
   - apply IHForall2. exact E.
 Qed.
 
@@ -240,11 +252,11 @@ Proof. unfold byte_at. destruct (PositiveMap.find _ c); lia. Qed.
 Lemma get_u32_nonneg p : 0 <= get_u32 c p.
 Proof. unfold get_u32. pose proof (byte_at_nonneg p). pose proof (byte_at_nonneg (p + 1)). pose proof (byte_at_nonneg (p + 2)). pose proof (byte_at_nonneg (p + 3)). lia. Qed.
 
-Lemma update_locs_in bp k locs x y :
-  nth_error bp k = Some (JUnknown locs None) ->
-  In y (all_locs (update_nth bp k (JUnknown (locs ++ [x]) None))) -> y = x \/ In y (all_locs bp).
+Lemma update_locs_in bp k locs res x y :
+  nth_error bp k = Some (JUnknown locs res) ->
+  In y (all_locs (update_nth bp k (JUnknown (locs ++ [x]) res))) -> y = x \/ In y (all_locs bp).
 Proof.
-  intros E H. destruct (all_locs_update bp k locs None x E) as (A & B & E1 & E2). rewrite E2 in H. rewrite E1.
+  intros E H. destruct (all_locs_update bp k locs res x E) as (A & B & E1 & E2). rewrite E2 in H. rewrite E1.
   apply in_app_iff in H. cbn in H. rewrite in_app_iff. intuition.
 Qed.
 
@@ -263,14 +275,14 @@ Proof.
     intros y Hy. rewrite O2 in Hy. eapply update_locs_in; eauto. }
   assert (Enth1 : nth_error (c_bp s1) k = Some (JUnknown (locs ++ [cur_off s + 1]) None)).
   { rewrite O2. eapply nth_error_update_nth; eauto. }
-  destruct (lenv_nth s1 rho k _ Hle Enth1) as (e & Ee & He).
-  assert (Hlo_e : snd e <= cur_off s) by apply (lows_nth _ _ _ _ Hlo Ee).
-  assert (Ht : get_u32 c (cur_off s + 1) = fst e) by (apply He; [apply in_or_app; right; left; reflexivity|lia]).
-  assert (H0 : 0 <= fst e) by (rewrite <- Ht; apply get_u32_nonneg).
-  cbn. exists e, 1%nat, (set_pc M (fst e)).
+  destruct (lenv_nth s1 rho k _ _ Hle Enth1) as (e & Ee & Er & He).
+  assert (Hlo_e : snd (fst e) <= cur_off s) by apply (lows_nth _ _ _ _ Hlo Ee).
+  assert (Ht : get_u32 c (cur_off s + 1) = fst (fst e)) by (apply He; [apply in_or_app; right; left; reflexivity|lia]).
+  assert (H0 : 0 <= fst (fst e)) by (rewrite <- Ht; apply get_u32_nonneg).
+  cbn. exists e, 1%nat, (set_pc M (fst (fst e))).
   split; [exact Ee|]. split; [exact H0|]. split.
   - cbn. rewrite (mstep_br2 M (r_idx _ _ _ _ _ _ _ _ _ _ _ R)); rewrite (r_pc _ _ _ _ _ _ _ _ _ _ _ R); [rewrite Ht; reflexivity|exact Hc].
-  - split; [|apply frame_eq_set_pc]. eapply rel_jump; [exact R|reflexivity|apply cur_off_at_pc; exact H0].
+  - split; [|apply frame_eq_set_pc]. unfold arrive. rewrite Er. eapply rel_jump; [exact R|reflexivity|apply cur_off_at_pc; exact H0].
 Qed.
 
 Lemma rel_pc s s2 st l vs vs2 M pc :
@@ -290,7 +302,7 @@ Lemma sim_br_if k locs s v v1 s1 rho st l cv vs M :
   matches F s1 -> lenv s1 rho -> lows rho s -> small NR s1 -> rel s st l (VI32 cv :: vs) M ->
   exists M1, nsteps 1 M = SNext M1 /\ frame_eq M M1 /\
     if cv =? 0 then rel s1 st l vs M1
-    else exists e, nth_error rho k = Some e /\ 0 <= fst e /\ rel (at_pc (fst e)) st l [] M1.
+    else exists e, nth_error rho k = Some e /\ 0 <= fst (fst e) /\ arrive e st l vs M1.
 Proof.
   intros I Hu Enth Ev Eh Hm Hle Hlo Sm R.
   destruct (op_br_if nl cx s v v1 s1 k locs I Hu Enth Ev Eh) as (p & rest & Es & Pp & O1 & O2 & O3 & O4 & O5 & O6 & I1 & Hu1 & X1).
@@ -319,11 +331,11 @@ Proof.
   - eapply rel_pc; [exact R|exact Hrest|exact Ecur].
   - assert (Enth1 : nth_error (c_bp s1) k = Some (JUnknown (locs ++ [cur_off s + 1]) None)).
     { rewrite O2. eapply nth_error_update_nth; eauto. }
-    destruct (lenv_nth s1 rho k _ Hle Enth1) as (e & Ee & He).
-    assert (Hlo_e : snd e <= cur_off s) by apply (lows_nth _ _ _ _ Hlo Ee).
-    assert (Ht : get_u32 c (cur_off s + 1) = fst e) by (apply He; [apply in_or_app; right; left; reflexivity|lia]).
-    assert (H0 : 0 <= fst e) by (rewrite <- Ht; apply get_u32_nonneg).
-    exists e. split; [exact Ee|]. split; [exact H0|]. rewrite Ht.
+    destruct (lenv_nth s1 rho k _ _ Hle Enth1) as (e & Ee & Er & He).
+    assert (Hlo_e : snd (fst e) <= cur_off s) by apply (lows_nth _ _ _ _ Hlo Ee).
+    assert (Ht : get_u32 c (cur_off s + 1) = fst (fst e)) by (apply He; [apply in_or_app; right; left; reflexivity|lia]).
+    assert (H0 : 0 <= fst (fst e)) by (rewrite <- Ht; apply get_u32_nonneg).
+    exists e. split; [exact Ee|]. split; [exact H0|]. rewrite Ht. unfold arrive. rewrite Er.
     eapply rel_jump; [exact R|reflexivity|apply cur_off_at_pc; exact H0].
 Qed.
 
@@ -344,7 +356,7 @@ Proof.
   intros I Hu Enth Ev Eh Hm Hle Hlo R.
   destruct (op_br_known nl cx s v v1 s1 k pos I Hu Enth Ev Eh) as (O1 & O2 & O3 & O4 & O5 & O6 & I1 & Hu1 & X1).
   assert (Enth1 : nth_error (c_bp s1) k = Some (JKnown pos)) by (rewrite O2; exact Enth).
-  destruct (lenv_nth_known s1 rho k pos Hle Enth1) as (e & Ee & Epos).
+  destruct (lenv_nth_known s1 rho k pos Hle Enth1) as (e & Ee & Epos & Er).
   destruct (lows_nth _ _ _ _ Hlo Ee) as [_ Hr]. rewrite Epos in Hr.
   assert (Hc : code_at c (cur_off s) (IBr :: u32_bytes pos)).
   { apply (code_from_F s1 (c_out s) (IBr :: u32_bytes pos) [] Hm); [rewrite app_nil_r; exact O1|].
@@ -353,7 +365,7 @@ Proof.
   split; [exact Ee|]. split; [lia|]. split.
   - cbn. rewrite (mstep_br art mhost codes fidx c consts Hcode M pos (r_idx _ _ _ _ _ _ _ _ _ _ _ R)); auto.
     rewrite (r_pc _ _ _ _ _ _ _ _ _ _ _ R). exact Hc.
-  - split; [|apply frame_eq_set_pc]. eapply rel_jump; [exact R|reflexivity|apply cur_off_at_pc; lia].
+  - split; [|apply frame_eq_set_pc]. unfold arrive. rewrite Er, Epos. eapply rel_jump; [exact R|reflexivity|apply cur_off_at_pc; lia].
 Qed.
 
 Lemma sim_br_if_known k pos s v v1 s1 rho st l cv vs M :
@@ -363,12 +375,12 @@ Lemma sim_br_if_known k pos s v v1 s1 rho st l cv vs M :
   matches F s1 -> lenv s1 rho -> lows rho s -> small NR s1 -> rel s st l (VI32 cv :: vs) M ->
   exists M1, nsteps 1 M = SNext M1 /\ frame_eq M M1 /\
     if cv =? 0 then rel s1 st l vs M1
-    else exists e, nth_error rho k = Some e /\ 0 <= fst e /\ rel (at_pc (fst e)) st l [] M1.
+    else exists e, nth_error rho k = Some e /\ 0 <= fst (fst e) /\ arrive e st l vs M1.
 Proof.
   intros I Hu Enth Ev Eh Hm Hle Hlo Sm R.
   destruct (op_br_if_known nl cx s v v1 s1 k pos I Hu Enth Ev Eh) as (p & rest & Es & Pp & O1 & O2 & O3 & O4 & O5 & O6 & I1 & Hu1 & X1).
   assert (Enth1 : nth_error (c_bp s1) k = Some (JKnown pos)) by (rewrite O2; exact Enth).
-  destruct (lenv_nth_known s1 rho k pos Hle Enth1) as (e & Ee & Epos).
+  destruct (lenv_nth_known s1 rho k pos Hle Enth1) as (e & Ee & Epos & Er).
   destruct (lows_nth _ _ _ _ Hlo Ee) as [_ Hr]. rewrite Epos in Hr.
   assert (Hc : code_at c (cur_off s) (IBrIf :: u32_bytes pos ++ i32_bytes (provider_idx p))).
   { apply (code_from_F s1 (c_out s) _ [] Hm); [rewrite app_nil_r; exact O1|].
@@ -386,7 +398,7 @@ Proof.
   eexists. split; [cbn; rewrite Hstep; reflexivity|]. split; [apply frame_eq_set_pc|].
   destruct (cv =? 0).
   - eapply rel_pc; [exact R|rewrite O3; exact Hrest|exact Ecur].
-  - exists e. split; [exact Ee|]. rewrite Epos. split; [lia|].
+  - exists e. split; [exact Ee|]. split; [rewrite Epos; lia|]. unfold arrive. rewrite Er, Epos.
     eapply rel_jump; [exact R|reflexivity|apply cur_off_at_pc; lia].
 Qed.
 
@@ -406,7 +418,8 @@ Proof.
 Qed.
 
 Lemma sim_return s v v1 s1 rho st l vs M :
-  inv nl s v -> v_unreach v = None -> cx_return cx = None -> v_ctrls v <> [] ->
+  inv nl s v -> v_unreach v = None -> cx_return cx = None ->
+  last (map (fun f => Some (vf_label f)) (v_ctrls v)) None = Some None ->
   vstep cx v (OBasic BReturn) = Some v1 ->
   handle_opcode cx s v1 Reachable (OBasic BReturn) = Some s1 ->
   matches F s1 -> rel s st l vs M -> sim_res rho M s1 (RReturn st vs).
@@ -421,6 +434,95 @@ Proof.
   split; [apply (r_globals _ _ _ _ _ _ _ _ _ _ _ R)|apply (r_mem _ _ _ _ _ _ _ _ _ _ _ R)].
 Qed.
 
+(** ** moving a value into the reserved result register of a frame *)
+Lemma sim_copy s p d rest st l v vs M :
+  rel s st l (v :: vs) M -> c_stack s = p :: rest -> pwf nl s p -> cwf nl s -> small NR s -> nl <= d < c_next s ->
+  code_at c (cur_off s) (copy_bytes p d) ->
+  exists k M1, nsteps k M = SNext M1 /\ frame_eq M M1
+    /\ ms_pc M1 = cur_off s + Z.of_nat (length (copy_bytes p d))
+    /\ forall s2, c_stack s2 = [PDyn d] -> cur_off s2 = ms_pc M1 -> rel s2 st l [v] M1.
+Proof.
+  intros R Es Pp W Sm Hd Hc.
+  pose proof (r_stack _ _ _ _ _ _ _ _ _ _ _ R) as Hst. rewrite Es in Hst.
+  assert (Hp : repr (denote consts M p) v) by (inversion Hst; auto). clear Hst.
+  pose proof (w_next _ _ W) as Hnl. destruct Sm as [Sn Sc].
+  unfold copy_bytes in *. destruct (provider_eqb p (PDyn d)) eqn:Eq.
+  - apply provider_eqb_eq in Eq. subst p. exists O, M. split; [reflexivity|]. split; [apply frame_eq_refl|].
+    cbn [length]. split; [rewrite (r_pc _ _ _ _ _ _ _ _ _ _ _ R); lia|].
+    intros s2 E2 Ec2. destruct R. constructor; auto. rewrite E2. constructor; [exact Hp|constructor].
+  - pose proof (pwf_idx s p (conj Sn Sc) W Pp) as Hidx.
+    assert (Hdi : idx_ok d) by (unfold idx_ok; lia).
+    pose proof (mstep_copy art mhost codes fidx c consts Hcode M (provider_idx p) d (r_idx _ _ _ _ _ _ _ _ _ _ _ R)) as Hstep.
+    rewrite (r_pc _ _ _ _ _ _ _ _ _ _ _ R) in Hstep. specialize (Hstep Hc Hidx Hdi).
+    change (get_local consts M (provider_idx p)) with (denote consts M p) in Hstep.
+    set (x := denote consts M p) in *. set (pc' := cur_off s + 9) in *.
+    exists 1%nat, (set_pc (set_reg M d x) pc'). split; [cbn; rewrite Hstep; reflexivity|].
+    split; [apply (frame_eq_write _ _ _ _ _ (mupd_refl M))|].
+    split; [cbn [length]; rewrite app_length, !i32_bytes_length; cbn; unfold pc'; lia|].
+    intros s2 E2 Ec2.
+    assert (Hr : 0 <= d < NR) by lia.
+    pose proof (reg_in_range _ _ _ _ _ _ _ _ _ _ _ d R Hr) as Hrange.
+    eapply (rel_after_write art fidx consts nl NR cap s s2 st st l l (v :: vs) [v] M M d x pc' [PDyn d]); auto.
+    + apply mupd_refl.
+    + constructor; [|constructor]. cbn [provider_idx]. rewrite get_local_set_pc, get_local_set_reg by (auto; lia).
+      rewrite Z.eqb_refl. exact Hp.
+    + apply (r_nl _ _ _ _ _ _ _ _ _ _ _ R).
+    + apply (locals_kept art mhost fidx consts nl NR cap s st l (v :: vs) M M d x pc' R (mupd_refl M)); lia.
+    + apply (r_globals _ _ _ _ _ _ _ _ _ _ _ R).
+    + apply (r_mem _ _ _ _ _ _ _ _ _ _ _ R).
+Qed.
+
+Lemma code_from_F2 s1 base t :
+  matches F s1 -> (base + length t <= length (c_out s1))%nat ->
+  (forall j, (j < length t)%nat -> nth (base + j) (c_out s1) 0%N = nth j t 0%N /\ ~ pending s1 (base + j)) ->
+  code_at c (Z.of_nat base) t.
+Proof.
+  intros [L Hm] Hlen Hn j Hj. destruct (Hn j Hj) as [E Np].
+  rewrite <- Nat2Z.inj_add, byte_F by lia. rewrite (Hm (base + j)%nat ltac:(lia) Np), E. reflexivity.
+Qed.
+
+Lemma sim_br_val k locs d s v v1 s1 rho st l vs M :
+  inv nl s v -> v_unreach v = None -> nth_error (c_bp s) k = Some (JUnknown locs (Some (PDyn d))) ->
+  vstep cx v (OBasic (BBr k)) = Some v1 ->
+  handle_opcode cx s v1 Reachable (OBasic (BBr k)) = Some s1 ->
+  matches F s1 -> lenv s1 rho -> lows rho s -> small NR s1 -> rel s st l vs M ->
+  sim_res rho M s1 (RBr k st l vs).
+Proof.
+  intros I Hu Enth Ev Eh Hm Hle Hlo Sm R.
+  destruct (op_br_val nl cx s v v1 s1 k locs d I Hu Enth Ev Eh) as (p & rest & Es & Pp & Hd & O1 & O2 & O3 & O4 & O5 & O6 & I1 & Hu1 & X1).
+  set (tc := copy_bytes p d) in *. set (x := cur_off s + Z.of_nat (length tc) + 1) in *.
+  assert (Hpend : forall q, (length (c_out s) <= q)%nat -> ~ in_win x q -> ~ pending s1 q).
+  { intros q Hq Hw. apply (pres_pending_new s s1 x); auto; [apply (i_bp _ _ _ I)|].
+    intros y Hy. rewrite O2 in Hy. eapply update_locs_in; eauto. }
+  destruct vs as [|v0 vs0]; [pose proof (r_stack _ _ _ _ _ _ _ _ _ _ _ R) as Hst; rewrite Es in Hst; inversion Hst|].
+  assert (Sm0 : small NR s) by (eapply small_of_mono; [exact Sm|apply mono_eq; auto]).
+  assert (Hc1 : code_at c (cur_off s) tc).
+  { apply (code_from_F s1 (c_out s) tc (IBr :: u32_bytes 0) Hm O1). intros j Hj. apply Hpend; [lia|unfold in_win, x, cur_off; lia]. }
+  destruct (sim_copy s p d rest st l v0 vs0 M R Es Pp (i_cwf _ _ _ I) Sm0 Hd Hc1) as (k1 & M1 & Hn1 & Fq1 & Hpc1 & Hbld).
+  assert (Hidx1 : ms_idx M1 = fidx) by (destruct Fq1 as (E & _); rewrite E; apply (r_idx _ _ _ _ _ _ _ _ _ _ _ R)).
+  assert (Hc2 : code_at c (ms_pc M1) [IBr]).
+  { rewrite Hpc1. fold tc. assert (E : c_out s1 = (c_out s ++ tc) ++ [IBr] ++ u32_bytes 0) by (rewrite O1, <- app_assoc; reflexivity).
+    pose proof (code_from_F s1 _ _ _ Hm E) as Hx. rewrite app_length in Hx.
+    replace (cur_off s + Z.of_nat (length tc)) with (Z.of_nat (length (c_out s) + length tc)) by (unfold cur_off; lia). apply Hx.
+    intros j Hj. cbn in Hj. apply Hpend; [lia|unfold in_win, x, cur_off; lia]. }
+  assert (Enth1 : nth_error (c_bp s1) k = Some (JUnknown (locs ++ [x]) (Some (PDyn d)))).
+  { rewrite O2. eapply nth_error_update_nth; eauto. }
+  destruct (lenv_nth s1 rho k _ _ Hle Enth1) as (e & Ee & Er & He).
+  destruct (lows_nth _ _ _ _ Hlo Ee) as [Hlo_e _].
+  assert (Ht : get_u32 c (ms_pc M1 + 1) = fst (fst e)).
+  { rewrite Hpc1. fold tc. replace (cur_off s + Z.of_nat (length tc) + 1) with x by reflexivity.
+    apply He; [apply in_or_app; right; left; reflexivity|unfold x; lia]. }
+  assert (H0 : 0 <= fst (fst e)) by (rewrite <- Ht; apply get_u32_nonneg).
+  assert (Hpc0 : 0 <= ms_pc M1) by (rewrite Hpc1; unfold cur_off; lia).
+  pose proof (Hbld (at_pcv (ms_pc M1) (PDyn d)) eq_refl (cur_off_at_pcv _ _ Hpc0)) as R1.
+  cbn. exists e, (k1 + 1)%nat, (set_pc M1 (fst (fst e))).
+  split; [exact Ee|]. split; [exact H0|]. split.
+  - rewrite (nsteps_app _ _ _ _ _ _ _ Hn1). cbn. rewrite (mstep_br2 M1 Hidx1 Hc2), Ht. reflexivity.
+  - split; [|exact Fq1].
+    unfold arrive. rewrite Er. exists v0, vs0. split; [reflexivity|].
+    eapply rel_pc; [exact R1|apply (r_stack _ _ _ _ _ _ _ _ _ _ _ R1)|apply cur_off_at_pcv; exact H0].
+Qed.
+
 (** ** composing a block body with what follows the block *)
 Definition blk (r : res) : res :=
   match r with
@@ -431,7 +533,7 @@ Definition blk (r : res) : res :=
   end.
 
 Lemma sim_after_body f rho T lo sb sk s' M rb rest :
-  sim_res ((T, lo) :: rho) M sb rb ->
+  sim_res ((T, lo, None) :: rho) M sb rb ->
   c_stack sb = [] -> c_stack sk = [] -> cur_off sk = T ->
   (forall st1 l1 M1, rel sb st1 l1 [] M1 ->
      exists n M2, nsteps n M1 = SNext M2 /\ frame_eq M1 M2 /\ rel sk st1 l1 [] M2) ->
@@ -447,6 +549,34 @@ Proof.
     + cbn in Ee. inversion Ee; subst e. cbn [fst] in *. cbn [arity firstn app].
       eapply sim_res_compose; [exact Hn|exact Fq|]. apply Hrest.
       eapply rel_transfer; [exact R1|rewrite Esk; reflexivity|rewrite Ecur, cur_off_at_pc by exact H0; reflexivity].
+    + cbn in Ee. cbn [sim_res]. exists e, n, M1. auto.
+Qed.
+
+Definition blkv (t : valtype) (r : res) : res :=
+  match r with
+  | RNormal s1 l1 vs1 => RNormal s1 l1 (firstn (arity (Some t)) vs1 ++ [])
+  | RBr O s1 l1 vs1 => RNormal s1 l1 (firstn (arity (Some t)) vs1 ++ [])
+  | RBr (S k) s1 l1 vs1 => RBr k s1 l1 vs1
+  | r => r
+  end.
+
+Lemma sim_after_body_val f t rho T lo r sb sk s' M rb rest :
+  sim_res ((T, lo, Some r) :: rho) M sb rb ->
+  c_stack sk = [r] -> cur_off sk = T ->
+  (forall st1 l1 vs1 M1, rel sb st1 l1 vs1 M1 ->
+     exists v, vs1 = [v] /\ exists n M2, nsteps n M1 = SNext M2 /\ frame_eq M1 M2 /\ rel sk st1 l1 [v] M2) ->
+  (forall st1 l1 v M1, rel sk st1 l1 [v] M1 -> sim_res rho M1 s' (exec_seq f st1 l1 [v] rest)) ->
+  sim_res rho M s' (match blkv t rb with RNormal s1 l1 st1 => exec_seq f s1 l1 st1 rest | r => r end).
+Proof.
+  intros Hb Esk Ecur Hbridge Hrest. destruct rb as [st1 l1 vs1|k st1 l1 vs1| | | |]; cbn [blkv sim_res] in *; auto.
+  - destruct Hb as (n & M1 & Hn & R1 & Fq).
+    destruct (Hbridge _ _ _ _ R1) as (v & -> & n2 & M2 & Hn2 & Fq2 & R2). cbn [arity firstn app].
+    eapply sim_res_compose; [exact Hn|exact Fq|]. eapply sim_res_compose; [exact Hn2|exact Fq2|]. apply Hrest. exact R2.
+  - destruct Hb as (e & n & M1 & Ee & H0 & Hn & R1 & Fq). destruct k as [|k].
+    + cbn in Ee. inversion Ee; subst e. unfold arrive in R1. cbn [fst snd] in *.
+      destruct R1 as (v & vs0 & -> & R1). cbn [arity firstn app].
+      eapply sim_res_compose; [exact Hn|exact Fq|]. apply Hrest.
+      eapply rel_transfer; [exact R1|rewrite Esk; reflexivity|rewrite Ecur, cur_off_at_pcv by exact H0; reflexivity].
     + cbn in Ee. cbn [sim_res]. exists e, n, M1. auto.
 Qed.
 
@@ -499,7 +629,7 @@ Proof. intros [L _]. unfold cur_off. lia. Qed.
 (** the label environment of a body whose frame is closed by [end] at [sb] -> [sc] *)
 Lemma lenv_end sb sc locs rho lo :
   c_bp sb = JUnknown locs None :: c_bp sc -> (forall loc, In loc locs -> resolved sc loc (cur_off sb)) ->
-  matches F sc -> cur_off sc = cur_off sb -> lenv sc rho -> lenv sb ((cur_off sb, lo) :: rho).
+  matches F sc -> cur_off sc = cur_off sb -> lenv sc rho -> lenv sb ((cur_off sb, lo, None) :: rho).
 Proof.
   intros E Rs Hm Ec Hl. unfold lenv. rewrite E. constructor; [|exact Hl].
   left. exists locs. split; [reflexivity|]. intros loc Hin _. cbn [fst].
@@ -509,17 +639,17 @@ Qed.
 Lemma rel_nil_stack s st l vs M : rel s st l vs M -> c_stack s = [] -> vs = [].
 Proof. intros R E. pose proof (r_stack _ _ _ _ _ _ _ _ _ _ _ R) as H. rewrite E in H. inversion H. reflexivity. Qed.
 
-Lemma lows_cons T lo rho s sa : lows rho s -> cur_off s <= cur_off sa -> lo <= cur_off sa -> 0 <= T < 4294967296 ->
-  lows ((T, lo) :: rho) sa.
+Lemma lows_cons T lo rr rho s sa : lows rho s -> cur_off s <= cur_off sa -> lo <= cur_off sa -> 0 <= T < 4294967296 ->
+  lows ((T, lo, rr) :: rho) sa.
 Proof. intros H Hle Hlo HT. constructor; [split; [exact Hlo|exact HT]|]. eapply lows_mono; eauto. Qed.
 
-Lemma lenv1_u l e : lenv1 (JUnknown l None) e -> forall loc, In loc l -> snd e <= loc -> get_u32 c loc = fst e.
-Proof. intros [(l0 & E & H)|E]; [inversion E; subst; exact H|discriminate E]. Qed.
+Lemma lenv1_u l res e : lenv1 (JUnknown l res) e -> forall loc, In loc l -> snd (fst e) <= loc -> get_u32 c loc = fst (fst e).
+Proof. intros [(l0 & E & H)|[E _]]; [inversion E; subst; exact H|discriminate E]. Qed.
 
 Lemma bp_sub_head_u l bp0 j bp1 :
   bp_sub (JUnknown l None :: bp0) (j :: bp1) -> exists add, j = JUnknown (l ++ add) None.
 Proof.
-  intros H. inversion H as [|? ? ? ? [(l0 & add & E1 & E2)|(pos & E1 & _)]]; subst; [|discriminate E1].
+  intros H. inversion H as [|? ? ? ? [(l0 & add & r0 & E1 & E2)|(pos & E1 & _)]]; subst; [|discriminate E1].
   inversion E1; subst. exists add. reflexivity.
 Qed.
 
@@ -527,28 +657,29 @@ Section Cases.
 Variable n : nat.
 Hypothesis Hsim : forall f', (f' <= n)%nat -> SIM f'.
 
-Lemma case_block f bt body rest s v v' s' rho st l vs M :
+Lemma case_block f body rest s v v' s' rho st l vs M :
   (f <= n)%nat ->
-  compile_ops cx (flatten (Block bt body :: rest)) v s = Some (v', s') ->
-  lvl nl cx (flatten (Block bt body :: rest)) v = true ->
+  compile_ops cx (flatten (Block None body :: rest)) v s = Some (v', s') ->
+  lvl nl cx (flatten (Block None body :: rest)) v = true ->
   inv nl s v -> v_unreach v = None ->
   matches F s' -> lenv s' rho -> lows rho s -> small NR s' -> consts_ok consts s' ->
   rel s st l vs M ->
-  sim_res rho M s' (match exec_instr f st l vs (Block bt body) with
+  sim_res rho M s' (match exec_instr f st l vs (Block None body) with
                     | RNormal s1 l1 st1 => exec_seq f s1 l1 st1 rest | r => r end).
 Proof.
   intros Hf Hc Hl I Hu Hm Hle Hlo Sm Co R.
   rewrite flatten_block in Hc, Hl.
   destruct (compile_cons _ _ _ _ _ _ _ Hc) as (va & sa & Ev & Eh & Hc').
   rewrite (reach_of_none v Hu) in Eh. destruct (lvl_cons _ _ _ _ _ _ Hl Ev) as [Hk Hl'].
-  destruct bt; [discriminate|]. unfold ctl_ok in Hk. rewrite Hu in Hk. apply Nat.eqb_eq in Hk.
+  unfold ctl_ok in Hk. rewrite Hu in Hk. apply Nat.eqb_eq in Hk.
   destruct (op_block nl cx s v va sa I Hu Hk Ev Eh) as (A1 & A2 & (A3 & A4 & A5 & A6) & A7 & Ia & Hua).
   destruct (compile_app_inv _ _ _ _ _ _ _ Hc') as (vb & sb & Hcb & Hc'').
   rewrite (lvl_app nl cx _ _ _ _ _ _ Hcb) in Hl'. apply andb_true_iff in Hl'. destruct Hl' as [Hlb Hl''].
   assert (Pb : pres nl sa sb vb) by (eapply (pres_of body); eauto; left; exact A7).
   destruct (compile_cons _ _ _ _ _ _ _ Hc'') as (vc & sc & Evc & Ehc & Hcr).
   destruct (lvl_cons _ _ _ _ _ _ Hl'' Evc) as [_ Hlr].
-  destruct (op_end nl cx sb vb vc sc (p_inv _ _ _ _ Pb) Evc Ehc) as (j & bp' & E1 & E2 & E3 & E4 & E5 & E6 & E7 & E8 & X3 & Rs & Ic & Huc).
+  assert (Hnr : match c_bp sb with j :: _ => no_res j | [] => True end) by (eapply bp_sub_head_nores; [rewrite <- A2; apply (p_bp _ _ _ _ Pb)|exact Logic.I]).
+  destruct (op_end nl cx sb vb vc sc (p_inv _ _ _ _ Pb) Hnr Evc Ehc) as (j & bp' & E1 & E2 & E3 & E4 & E5 & E6 & E7 & E8 & X3 & Rs & Ic & Huc).
   pose proof (p_bp _ _ _ _ Pb) as Hb0. rewrite A2, E1 in Hb0. destruct (bp_sub_head_u _ _ _ _ Hb0) as (add & ->).
   cbn [locs_of] in Rs. set (locs := [] ++ add) in *.
   assert (Pr : pres nl sc s' v') by (eapply (pres_of rest); eauto; left; exact E7).
@@ -566,13 +697,13 @@ Proof.
   assert (Mob : mono sb s') by (eapply mono_trans; [apply (mono_eq sb sc); auto|exact Moc]).
   assert (Lc : lenv sc rho) by (eapply lenv_sub; [reflexivity|apply (p_bp _ _ _ _ Pr)|exact Hle]).
   assert (Ebp : c_bp sb = JUnknown locs None :: c_bp sc) by (rewrite E1, E2; reflexivity).
-  assert (Lb : lenv sb ((cur_off sb, 0) :: rho)) by (eapply lenv_end; eauto).
+  assert (Lb : lenv sb ((cur_off sb, 0, None) :: rho)) by (eapply lenv_end; eauto).
   assert (Oa : cur_off sa = cur_off s) by (unfold cur_off; rewrite A1; reflexivity).
   assert (Ob : cur_off sa <= cur_off sb) by (apply ext_off; apply (p_ext _ _ _ _ Pb)).
   eapply (sim_after_body (S f2) rho (cur_off sb) 0 sb sc s').
   - eapply (Hsim f2 ltac:(lia) body sa va vb sb); eauto.
     + left. exact A7.
-    + apply (lows_cons _ _ _ s); auto; try lia; [unfold cur_off; lia|apply T_range; assumption].
+    + apply (lows_cons _ _ _ _ s); auto; try lia; [unfold cur_off; lia|apply T_range; assumption].
     + eapply small_of_mono; eauto.
     + eapply consts_ok_of_mono; eauto.
     + eapply rel_transfer; [exact R|rewrite A3; reflexivity|exact Oa].
@@ -584,6 +715,80 @@ Proof.
   - intros st1 l1 M1 R1. eapply (Hsim (S f2) Hf rest sc vc v' s'); eauto.
     + left. exact E7.
     + eapply lows_mono; [exact Hlo|]. rewrite E8. lia.
+Qed.
+
+Lemma case_block_val f t body rest s v v' s' rho st l vs M :
+  (f <= n)%nat ->
+  compile_ops cx (flatten (Block (Some t) body :: rest)) v s = Some (v', s') ->
+  lvl nl cx (flatten (Block (Some t) body :: rest)) v = true ->
+  inv nl s v -> v_unreach v = None ->
+  matches F s' -> lenv s' rho -> lows rho s -> small NR s' -> consts_ok consts s' ->
+  rel s st l vs M ->
+  sim_res rho M s' (match exec_instr f st l vs (Block (Some t) body) with
+                    | RNormal s1 l1 st1 => exec_seq f s1 l1 st1 rest | r => r end).
+Proof.
+  intros Hf Hc Hl I Hu Hm Hle Hlo Sm Co R.
+  rewrite flatten_block in Hc, Hl.
+  destruct (compile_cons _ _ _ _ _ _ _ Hc) as (va & sa & Ev & Eh & Hc').
+  rewrite (reach_of_none v Hu) in Eh. destruct (lvl_cons _ _ _ _ _ _ Hl Ev) as [Hk Hl'].
+  unfold ctl_ok in Hk. rewrite Hu in Hk. apply Nat.eqb_eq in Hk.
+  destruct (op_block_val nl cx s v va sa t I Hu Hk Ev Eh) as (d & Hd & A1 & A2 & A3 & Ma & A7 & Ia & Hua).
+  destruct (compile_app_inv _ _ _ _ _ _ _ Hc') as (vb & sb & Hcb & Hc'').
+  rewrite (lvl_app nl cx _ _ _ _ _ _ Hcb) in Hl'. apply andb_true_iff in Hl'. destruct Hl' as [Hlb Hl''].
+  assert (Pb : pres nl sa sb vb) by (eapply (pres_of body); eauto; left; exact A7).
+  destruct (compile_cons _ _ _ _ _ _ _ Hc'') as (vc & sc & Evc & Ehc & Hcr).
+  destruct (lvl_cons _ _ _ _ _ _ Hl'' Evc) as [Hke Hlr].
+  pose proof (p_bp _ _ _ _ Pb) as Hb0. rewrite A2 in Hb0. destruct (bp_sub_head_val _ _ _ _ Hb0) as (add & b'' & Ebp & Hb').
+  destruct (op_end_val nl cx sb vb vc sc _ d b'' (p_inv _ _ _ _ Pb) Ebp Evc Ehc)
+    as (tc & E2 & E3 & E5 & E6 & E7 & X3 & Ecur & Rs & Hnth & Ic & Huc & Hd' & Hcase).
+  assert (Pr : pres nl sc s' v') by (eapply (pres_of rest); eauto; left; exact E7).
+  (* the end of a value-typed block is reachable *)
+  destruct Hcase as [(Hub & p & Esb & Pp & Etc)|(Hub & _)].
+  2:{ exfalso. unfold ctl_ok in Hke. pose proof (i_frames _ _ _ (p_inv _ _ _ _ Pb)) as Frb.
+      destruct (v_ctrls vb) as [|fb rb'] eqn:Ecb; [inversion Frb; subst; rewrite Ebp in *; discriminate|].
+      destruct (target_label_some _ _ _ _ O fb _ _ Frb eq_refl ltac:(rewrite Ebp; reflexivity)) as (t0 & d0 & Fl & _).
+      destruct (frames_cons _ _ _ _ _ Frb) as (_ & Fe & _). rewrite Fl in Fe. rewrite Fe in Hke.
+      destruct (v_unreach vb); [discriminate|contradiction]. }
+  assert (Es : c_stack s = []) by (destruct (c_stack s) eqn:E; [reflexivity|pose proof (i_len _ _ _ I) as L; rewrite E, Hk in L; discriminate]).
+  pose proof (rel_nil_stack _ _ _ _ _ R Es) as Evs. subst vs.
+  destruct f as [|f2]; [cbn; exact Logic.I|]. rewrite E_block.
+  match goal with |- sim_res _ _ _ ?rr =>
+    replace rr with (match blkv t (exec_seq f2 st l [] body) with
+                    | RNormal s1 l1 st1 => exec_seq (S f2) s1 l1 st1 rest | r0 => r0 end)
+      by (destruct (exec_seq f2 st l [] body) as [? ? ?|[|?] ? ? ?| | | |]; reflexivity) end.
+  assert (Mc : matches F sc) by (eapply matches_ext; [apply (p_ext _ _ _ _ Pr)|exact Hm]).
+  assert (Mb : matches F sb) by (eapply matches_ext; [exact X3|exact Mc]).
+  assert (Moc : mono sc s') by apply (p_mono _ _ _ _ Pr).
+  assert (Mob : mono sb s') by (eapply mono_trans; [apply (mono_eq sb sc); auto|exact Moc]).
+  assert (Lc : lenv sc rho) by (eapply lenv_sub; [reflexivity|apply (p_bp _ _ _ _ Pr)|exact Hle]).
+  assert (HT : 0 <= cur_off sc < 4294967296) by (apply T_range; exact Mc).
+  assert (Lb : lenv sb ((cur_off sc, 0, Some (PDyn d)) :: rho)).
+  { unfold lenv. rewrite Ebp. constructor; [|unfold lenv in Lc; rewrite E2 in Lc; exact Lc].
+    left. exists ([] ++ add). split; [reflexivity|]. intros loc Hin _. cbn [fst].
+    apply (target_from_F sc loc (cur_off sc) (Rs loc Hin) Mc HT). }
+  assert (Oa : cur_off sa = cur_off s) by (unfold cur_off; rewrite A1; reflexivity).
+  assert (Ob : cur_off sa <= cur_off sb) by (apply ext_off; apply (p_ext _ _ _ _ Pb)).
+  assert (Sb : small NR sb) by (eapply small_of_mono; [exact Sm|exact Mob]).
+  eapply (sim_after_body_val (S f2) t rho (cur_off sc) 0 (PDyn d) sb sc s').
+  - eapply (Hsim f2 ltac:(lia) body sa va vb sb); eauto.
+    + left. exact A7.
+    + apply (lows_cons _ _ _ _ s); auto; try lia. unfold cur_off. lia.
+    + eapply consts_ok_of_mono; [exact Co|exact Mob].
+    + eapply rel_transfer; [exact R|rewrite A3; reflexivity|exact Oa].
+  - exact E3.
+  - reflexivity.
+  - intros st1 l1 vs1 M1 R1.
+    pose proof (r_stack _ _ _ _ _ _ _ _ _ _ _ R1) as Hst. rewrite Esb in Hst.
+    inversion Hst as [|? v1 ? vs1' Hp1 Hr1]; subst. inversion Hr1; subst. clear Hst Hr1.
+    exists v1. split; [reflexivity|].
+    assert (Hcc : code_at c (cur_off sb) (copy_bytes p d)).
+    { unfold cur_off. apply (code_from_F2 sc (length (c_out sb)) (copy_bytes p d) Mc); [|exact Hnth].
+      unfold cur_off in Ecur. lia. }
+    destruct (sim_copy sb p d [] st1 l1 v1 [] M1 R1 Esb Pp (i_cwf _ _ _ (p_inv _ _ _ _ Pb)) Sb Hd' Hcc) as (k1 & M2 & Hn1 & Fq1 & Hpc1 & Hbld).
+    exists k1, M2. split; [exact Hn1|]. split; [exact Fq1|]. apply Hbld; [exact E3|]. rewrite Hpc1, Ecur. reflexivity.
+  - intros st1 l1 v1 M1 R1. eapply (Hsim (S f2) Hf rest sc vc v' s'); eauto.
+    + left. exact E7.
+    + eapply lows_mono; [exact Hlo|]. lia.
 Qed.
 
 Lemma bp_sub_head L bp0 locs bp1 :
@@ -615,7 +820,8 @@ Proof.
     assert (Pb : pres nl sa sb vb) by (eapply (pres_of thn); eauto; left; exact A6).
     destruct (compile_cons _ _ _ _ _ _ _ Hc'') as (vc & sc & Evc & Ehc & Hcr).
     destruct (lvl_cons _ _ _ _ _ _ Hl'' Evc) as [_ Hlr].
-    destruct (op_end nl cx sb vb vc sc (p_inv _ _ _ _ Pb) Evc Ehc) as (j & bp' & E1 & E2 & E3 & E4 & E5 & E6 & E7 & E8 & X3 & Rs & Ic & Huc).
+    assert (Hnr : match c_bp sb with j :: _ => no_res j | [] => True end) by (eapply bp_sub_head_nores; [rewrite <- A2; apply (p_bp _ _ _ _ Pb)|exact Logic.I]).
+  destruct (op_end nl cx sb vb vc sc (p_inv _ _ _ _ Pb) Hnr Evc Ehc) as (j & bp' & E1 & E2 & E3 & E4 & E5 & E6 & E7 & E8 & X3 & Rs & Ic & Huc).
     pose proof (p_bp _ _ _ _ Pb) as Hb0. rewrite A2, E1 in Hb0. destruct (bp_sub_head_u _ _ _ _ Hb0) as (add & ->).
     cbn [locs_of] in Rs. set (locs := [cur_off s + 5] ++ add) in *.
     assert (Pr : pres nl sc s' v') by (eapply (pres_of rest); eauto; left; exact E7).
@@ -627,7 +833,7 @@ Proof.
     assert (Moa : mono sa s') by (eapply mono_trans; [apply (p_mono _ _ _ _ Pb)|exact Mob]).
     assert (Lc : lenv sc rho) by (eapply lenv_sub; [reflexivity|apply (p_bp _ _ _ _ Pr)|exact Hle]).
     assert (Ebp : c_bp sb = JUnknown locs None :: c_bp sc) by (rewrite E1, E2; reflexivity).
-    assert (Lb : lenv sb ((cur_off sb, 0) :: rho)) by (eapply lenv_end; eauto).
+    assert (Lb : lenv sb ((cur_off sb, 0, None) :: rho)) by (eapply lenv_end; eauto).
     assert (Oa : cur_off s <= cur_off sa) by (apply ext_off; exact Xa).
     assert (Ob : cur_off sa <= cur_off sb) by (apply ext_off; apply (p_ext _ _ _ _ Pb)).
     assert (Sa : small NR sa) by (eapply small_of_mono; eauto).
@@ -655,7 +861,7 @@ Proof.
     + eapply (sim_after_body (S (S f3)) rho (cur_off sb) 0 sb sc s').
       * eapply (Hsim f3 ltac:(lia) thn sa va vb sb); eauto.
         -- left. exact A6.
-        -- apply (lows_cons _ _ _ s); auto; try lia; [unfold cur_off; lia|apply T_range; assumption].
+        -- apply (lows_cons _ _ _ _ s); auto; try lia; [unfold cur_off; lia|apply T_range; assumption].
         -- eapply small_of_mono; [exact Sm|exact Mob].
         -- eapply consts_ok_of_mono; [exact Co|exact Mob].
       * exact E3.
@@ -675,14 +881,16 @@ Proof.
     assert (Pb : pres nl sa sb vb) by (eapply (pres_of thn); eauto; left; exact A6).
     destruct (compile_cons _ _ _ _ _ _ _ Hc'') as (vc & sc & Evc & Ehc & Hcr).
     destruct (lvl_cons _ _ _ _ _ _ Hl'' Evc) as [_ Hlr].
-    destruct (op_else nl cx sb vb vc sc (p_inv _ _ _ _ Pb) Evc Ehc)
+    assert (Hnr : match c_bp sb with j :: _ => no_res j | [] => True end) by (eapply bp_sub_head_nores; [rewrite <- A2; apply (p_bp _ _ _ _ Pb)|exact Logic.I]).
+    destruct (op_else nl cx sb vb vc sc (p_inv _ _ _ _ Pb) Hnr Evc Ehc)
       as (first & more & bp' & pre & E1 & E2 & Lp & E3 & E4 & E5 & E6 & E7 & E8 & X3 & Rs & Ic & Huc).
     destruct (compile_app_inv _ _ _ _ _ _ _ Hcr) as (vd & sd & Hcd & Hcr').
     rewrite (lvl_app nl cx _ _ _ _ _ _ Hcd) in Hlr. apply andb_true_iff in Hlr. destruct Hlr as [Hld Hlr'].
     assert (Pd : pres nl sc sd vd) by (eapply (pres_of (e :: els)); eauto; left; exact E8).
     destruct (compile_cons _ _ _ _ _ _ _ Hcr') as (ve & se & Eve & Ehe & Hcr'').
     destruct (lvl_cons _ _ _ _ _ _ Hlr' Eve) as [_ Hlr''].
-    destruct (op_end nl cx sd vd ve se (p_inv _ _ _ _ Pd) Eve Ehe) as (j & bp'' & G1 & G2 & G3 & G4 & G5 & G6 & G7 & G8 & X5 & Rs' & Ie & Hue).
+    assert (Hnr' : match c_bp sd with j :: _ => no_res j | [] => True end) by (eapply bp_sub_head_nores; [rewrite <- E2; apply (p_bp _ _ _ _ Pd)|exact Logic.I]).
+    destruct (op_end nl cx sd vd ve se (p_inv _ _ _ _ Pd) Hnr' Eve Ehe) as (j & bp'' & G1 & G2 & G3 & G4 & G5 & G6 & G7 & G8 & X5 & Rs' & Ie & Hue).
     pose proof (p_bp _ _ _ _ Pd) as Hd0. rewrite E2, G1 in Hd0. destruct (bp_sub_head_u _ _ _ _ Hd0) as (add0 & ->).
     cbn [locs_of] in Rs'. set (locs := (more ++ [cur_off sb + 1]) ++ add0) in *.
     assert (Pr : pres nl se s' v') by (eapply (pres_of rest); eauto; left; exact G7).
@@ -698,8 +906,8 @@ Proof.
     assert (Moa : mono sa s') by (eapply mono_trans; [apply (p_mono _ _ _ _ Pb)|exact Mob]).
     assert (Le : lenv se rho) by (eapply lenv_sub; [reflexivity|apply (p_bp _ _ _ _ Pr)|exact Hle]).
     assert (Ebp : c_bp sd = JUnknown locs None :: c_bp se) by (rewrite G1, G2; reflexivity).
-    assert (Ld : lenv sd ((cur_off sd, 0) :: rho)) by (eapply lenv_end; eauto).
-    assert (Lc : lenv sc ((cur_off sd, 0) :: rho)) by (eapply lenv_sub; [reflexivity|apply (p_bp _ _ _ _ Pd)|exact Ld]).
+    assert (Ld : lenv sd ((cur_off sd, 0, None) :: rho)) by (eapply lenv_end; eauto).
+    assert (Lc : lenv sc ((cur_off sd, 0, None) :: rho)) by (eapply lenv_sub; [reflexivity|apply (p_bp _ _ _ _ Pd)|exact Ld]).
     assert (Oa : cur_off s <= cur_off sa) by (apply ext_off; exact Xa).
     assert (Oa9 : cur_off sa = cur_off s + 9).
     { unfold cur_off. rewrite A1, app_length. cbn [length]. rewrite app_length, i32_bytes_length, u32_bytes_length. lia. }
@@ -711,8 +919,8 @@ Proof.
     assert (Hfirst : first = cur_off s + 5).
     { pose proof (p_bp _ _ _ _ Pb) as Hb. rewrite A2, E1 in Hb. destruct (bp_sub_head _ _ _ _ Hb) as (add & Ea). inversion Ea. reflexivity. }
     subst first.
-    assert (Lb : lenv sb ((cur_off sd, cur_off sa) :: rho)).
-    { unfold lenv in Lc |- *. rewrite E2 in Lc. rewrite E1. inversion Lc as [|? ? ? ? He Htl]; subst. pose proof (lenv1_u _ _ He) as Hl2.
+    assert (Lb : lenv sb ((cur_off sd, cur_off sa, None) :: rho)).
+    { unfold lenv in Lc |- *. rewrite E2 in Lc. rewrite E1. inversion Lc as [|? ? ? ? He Htl]; subst. pose proof (lenv1_u _ _ _ He) as Hl2.
       constructor; [|exact Htl]. left. exists ((cur_off s + 5) :: more). split; [reflexivity|]. cbn [fst snd] in *. intros loc Hin Hge.
       apply Hl2; [|unfold cur_off in *; lia].
       destruct Hin as [<-|Hin]; [lia|apply in_or_app; left; exact Hin]. }
@@ -739,7 +947,7 @@ Proof.
       eapply (sim_after_body (S (S f3)) rho (cur_off sd) 0 sd se s').
       * eapply (Hsim f3 ltac:(lia) (e :: els) sc vc vd sd); eauto.
         -- left. exact E8.
-        -- apply (lows_cons _ _ _ s); auto; try lia; [unfold cur_off; lia|apply T_range; assumption].
+        -- apply (lows_cons _ _ _ _ s); auto; try lia; [unfold cur_off; lia|apply T_range; assumption].
         -- eapply small_of_mono; [exact Sm|exact Mod].
         -- eapply consts_ok_of_mono; [exact Co|exact Mod].
       * exact G3.
@@ -752,7 +960,7 @@ Proof.
       eapply (sim_after_body (S (S f3)) rho (cur_off sd) (cur_off sa) sb se s').
       * eapply (Hsim f3 ltac:(lia) thn sa va vb sb); eauto.
         -- left. exact A6.
-        -- apply (lows_cons _ _ _ s); auto; try lia. apply T_range; assumption.
+        -- apply (lows_cons _ _ _ _ s); auto; try lia. apply T_range; assumption.
         -- eapply small_of_mono; [exact Sm|exact Mob].
         -- eapply consts_ok_of_mono; [exact Co|exact Mob].
       * exact E4.
@@ -766,7 +974,7 @@ Proof.
           rewrite <- app_assoc in Hy. apply in_app_iff in Hy. cbn in Hy. rewrite in_app_iff.
           destruct Hy as [Hy|[Hy|Hy]]; auto. right. left. right. exact Hy. }
         assert (Htgt : get_u32 c (cur_off sb + 1) = cur_off sd).
-        { unfold lenv in Lc. rewrite E2 in Lc. inversion Lc as [|? ? ? ? He Htl]; subst. pose proof (lenv1_u _ _ He) as Hl2.
+        { unfold lenv in Lc. rewrite E2 in Lc. inversion Lc as [|? ? ? ? He Htl]; subst. pose proof (lenv1_u _ _ _ He) as Hl2.
           cbn [fst snd] in Hl2. apply Hl2; [apply in_or_app; right; left; reflexivity|unfold cur_off; lia]. }
         exists 1%nat, (set_pc M2 (cur_off sd)). split.
         -- cbn. rewrite (mstep_br2 M2 (r_idx _ _ _ _ _ _ _ _ _ _ _ R2)); rewrite (r_pc _ _ _ _ _ _ _ _ _ _ _ R2); [rewrite Htgt; reflexivity|exact Hcode1].
@@ -775,7 +983,7 @@ Proof.
 Qed.
 
 Lemma bp_sub_head_k pos bp0 j bp1 : bp_sub (JKnown pos :: bp0) (j :: bp1) -> j = JKnown pos.
-Proof. intros H. inversion H as [|? ? ? ? [(l0 & add & E1 & E2)|(p0 & E1 & E2)]]; subst; [discriminate E1|]. inversion E1; subst. reflexivity. Qed.
+Proof. intros H. inversion H as [|? ? ? ? [(l0 & add & r0 & E1 & E2)|(p0 & E1 & E2)]]; subst; [discriminate E1|]. inversion E1; subst. reflexivity. Qed.
 
 Lemma case_loop f bt body rest s v v' s' rho st l vs M :
   (f <= n)%nat ->
@@ -798,7 +1006,8 @@ Proof.
   assert (Pb : pres nl sa sb vb) by (eapply (pres_of body); eauto; left; exact A7).
   destruct (compile_cons _ _ _ _ _ _ _ Hc'') as (vc & sc & Evc & Ehc & Hcr).
   destruct (lvl_cons _ _ _ _ _ _ Hl'' Evc) as [_ Hlr].
-  destruct (op_end nl cx sb vb vc sc (p_inv _ _ _ _ Pb) Evc Ehc) as (j & bp' & E1 & E2 & E3 & E4 & E5 & E6 & E7 & E8 & X3 & Rs & Ic & Huc).
+  assert (Hnr : match c_bp sb with j :: _ => no_res j | [] => True end) by (eapply bp_sub_head_nores; [rewrite <- A2; apply (p_bp _ _ _ _ Pb)|exact Logic.I]).
+  destruct (op_end nl cx sb vb vc sc (p_inv _ _ _ _ Pb) Hnr Evc Ehc) as (j & bp' & E1 & E2 & E3 & E4 & E5 & E6 & E7 & E8 & X3 & Rs & Ic & Huc).
   pose proof (p_bp _ _ _ _ Pb) as Hb0. rewrite A2, E1 in Hb0. pose proof (bp_sub_head_k _ _ _ _ Hb0) as Ej. subst j.
   assert (Pr : pres nl sc s' v') by (eapply (pres_of rest); eauto; left; exact E7).
   assert (Es : c_stack s = []) by (destruct (c_stack s) eqn:E; [reflexivity|pose proof (i_len _ _ _ I) as L; rewrite E, Hk in L; discriminate]).
@@ -810,10 +1019,10 @@ Proof.
   assert (Mob : mono sb s') by (eapply mono_trans; [apply (mono_eq sb sc); auto|exact Moc]).
   assert (Lc : lenv sc rho) by (eapply lenv_sub; [reflexivity|apply (p_bp _ _ _ _ Pr)|exact Hle]).
   assert (Oa : cur_off sa = cur_off s) by (unfold cur_off; rewrite A1; reflexivity).
-  assert (Lb : lenv sb ((cur_off s, 0) :: rho)).
-  { unfold lenv. rewrite E1. constructor; [right; reflexivity|]. unfold lenv in Lc. rewrite E2 in Lc. exact Lc. }
-  assert (Hlo' : lows ((cur_off s, 0) :: rho) sa).
-  { apply (lows_cons _ _ _ s); auto; try lia; [unfold cur_off; lia|]. rewrite <- Oa. apply T_range. exact Ma. }
+  assert (Lb : lenv sb ((cur_off s, 0, None) :: rho)).
+  { unfold lenv. rewrite E1. constructor; [right; split; reflexivity|]. unfold lenv in Lc. rewrite E2 in Lc. exact Lc. }
+  assert (Hlo' : lows ((cur_off s, 0, None) :: rho) sa).
+  { apply (lows_cons _ _ _ _ s); auto; try lia; [unfold cur_off; lia|]. rewrite <- Oa. apply T_range. exact Ma. }
   assert (Hrest : forall st1 l1 M2, rel sc st1 l1 [] M2 -> sim_res rho M2 s' (exec_seq f st1 l1 [] rest)).
   { intros st1 l1 M2 R2. eapply (Hsim f Hf rest sc vc v' s'); eauto.
     - left. exact E7.
@@ -825,7 +1034,7 @@ Proof.
                               | RNormal s1 l1 st1 => exec_seq f s1 l1 st1 rest | r => r end)).
   { induction g as [|g2 IHg]; intros Hg st l M Ra; [cbn; exact Logic.I|].
     rewrite E_loop.
-    assert (Hb : sim_res ((cur_off s, 0) :: rho) M sb (exec_seq g2 st l [] body)).
+    assert (Hb : sim_res ((cur_off s, 0, None) :: rho) M sb (exec_seq g2 st l [] body)).
     { eapply (Hsim g2 ltac:(lia) body sa va vb sb); eauto.
       - left. exact A7.
       - eapply small_of_mono; [exact Sm|exact Mob].
@@ -854,7 +1063,7 @@ Proof.
   splits; auto; [|exists t; exact Eo].
   constructor; auto.
   - eapply bpwf_same_locs; [apply (i_bp _ _ _ I)|rewrite Ebp; reflexivity|apply ext_off; exact X1].
-  - rewrite Ectrl, Ebp. apply (i_frames _ _ _ I).
+  - rewrite Ectrl, Ebp. eapply frames_mono; [apply Mo|apply (i_frames _ _ _ I)].
   - left. exact Hu1.
 Qed.
 
@@ -882,7 +1091,12 @@ Proof.
           destruct f as [|f2]; [cbn; exact Logic.I|]. rewrite E_unreachable.
           exact (sim_unreachable s v v1 s1 rho st l vs M I Hu Ev Eh Hm R).
         * (* br *)
-          destruct (br_target _ _ _ _ Ev) as (fk & Ek). destruct (bp_target nl s v l0 fk I Ek) as [(locs & Enth)|(pos & Enth)].
+          destruct (br_target _ _ _ _ Ev) as (fk & Ek). destruct (bp_target nl s v l0 fk I Ek) as [(locs & [rr|] & Enth)|(pos & Enth)].
+          -- destruct (target_label_some _ _ _ _ l0 fk locs rr (i_frames _ _ _ I) Ek Enth) as (t0 & d & _ & -> & _).
+             destruct (op_br_val nl cx s v v1 s1 l0 locs d I Hu Enth Ev Eh) as (p & st0 & Es & Pp & Hd & O1 & O2 & O3 & O4 & O5 & O6 & I1 & Hu1 & X1).
+             rewrite (lvl_unreach_nil nl cx rest v1 Hu1 Hl') in Hc'. cbn in Hc'. inversion Hc'; subst v' s'.
+             destruct f as [|f2]; [cbn; exact Logic.I|]. rewrite E_br.
+             exact (sim_br_val l0 locs d s v v1 s1 rho st l vs M I Hu Enth Ev Eh Hm Hle Hlo Sm R).
           -- destruct (op_br nl cx s v v1 s1 l0 locs I Hu Enth Ev Eh) as (O1 & O2 & O3 & O4 & O5 & O6 & I1 & Hu1 & X1).
              rewrite (lvl_unreach_nil nl cx rest v1 Hu1 Hl') in Hc'. cbn in Hc'. inversion Hc'; subst v' s'.
              destruct f as [|f2]; [cbn; exact Logic.I|]. rewrite E_br.
@@ -896,8 +1110,10 @@ Proof.
                    forall cv vs0, vs = VI32 cv :: vs0 -> matches F s1 -> lenv s1 rho -> small NR s1 ->
                    exists Mx, nsteps 1 M = SNext Mx /\ frame_eq M Mx /\
                      if cv =? 0 then rel s1 st l vs0 Mx
-                     else exists e, nth_error rho l0 = Some e /\ 0 <= fst e /\ rel (at_pc (fst e)) st l [] Mx).
-          { destruct (br_if_target _ _ _ _ Ev) as (fk & Ek). destruct (bp_target nl s v l0 fk I Ek) as [(locs & Enth)|(pos & Enth)].
+                     else exists e, nth_error rho l0 = Some e /\ 0 <= fst (fst e) /\ arrive e st l vs0 Mx).
+          { destruct (br_if_target _ _ _ _ Ev) as (fk & Ek). destruct (bp_target nl s v l0 fk I Ek) as [(locs & [rr|] & Enth)|(pos & Enth)].
+            - exfalso. destruct (target_label_some _ _ _ _ l0 fk locs rr (i_frames _ _ _ I) Ek Enth) as (t0 & d & Fl & _).
+              unfold ctl_ok in Hk. rewrite Hu in Hk. unfold label_type in Hk. rewrite Ek, Fl in Hk. discriminate.
             - destruct (op_br_if nl cx s v v1 s1 l0 locs I Hu Enth Ev Eh) as (p & st0 & Es & Pp & O1 & O2 & O3 & O4 & O5 & O6 & I1 & Hu1 & X1).
               exists p, st0. splits; auto. intros cv vs0 -> Hm1 Hl1 Hs1.
               exact (sim_br_if l0 locs s v v1 s1 rho st l cv vs0 M I Hu Enth Ev Eh Hm1 Hl1 Hlo Hs1 R).
@@ -920,12 +1136,15 @@ Proof.
           -- destruct Hcase as (e & Ee & H0 & Re). cbn. exists e, 1%nat, Mx. auto.
         * (* return *)
           unfold ctl_ok in Hk. rewrite Hu in Hk. destruct (cx_return cx) eqn:Hret; [discriminate|].
-          assert (Hne : v_ctrls v <> []) by (destruct (v_ctrls v); [discriminate|discriminate]).
+          assert (Hne : last (map (fun f => Some (vf_label f)) (v_ctrls v)) None = Some None).
+          { destruct (last (map (fun f => Some (vf_label f)) (v_ctrls v)) None) as [[?|]|]; try discriminate. reflexivity. }
           destruct (op_return nl cx s v v1 s1 I Hu Hret Hne Ev Eh) as (O1 & O2 & O3 & O4 & O5 & O6 & I1 & Hu1 & X1).
           rewrite (lvl_unreach_nil nl cx rest v1 Hu1 Hl') in Hc'. cbn in Hc'. inversion Hc'; subst v' s'.
           destruct f as [|f2]; [cbn; exact Logic.I|]. rewrite E_return.
           exact (sim_return s v v1 s1 rho st l vs M I Hu Hret Hne Ev Eh Hm R).
-      + eapply (case_block n IH f bt body rest s v v' s'); eauto; lia.
+      + destruct bt as [t|].
+        * eapply (case_block_val n IH f t body rest s v v' s'); eauto; lia.
+        * eapply (case_block n IH f body rest s v v' s'); eauto; lia.
       + eapply (case_loop n IH f bt body rest s v v' s'); eauto; lia.
       + eapply (case_if n IH f bt thn els rest s v v' s'); eauto; lia. }
   unfold SIM. intros is s v v' s' rho st l vs M Hc Hl I Hu Hr Hm Hle Hlo Sm Co R.
